@@ -87,6 +87,7 @@ CHECKS = {
             {"harness": "H_C12_seeded_stable", "uf": True, "reach": ["hashed"], "bound": "2 configurations x paths/identifiers of 1..2 symbolic bytes"},
             {"harness": "H_C12_seeded_distinct", "uf": True, "reach": ["hashed"], "bound_quick": "paths and identifiers of 1..2 bytes, seeds 8..9 bytes", "bound_thorough": "1..3 bytes"},
             {"harness": "H_C12_unseeded_pkg", "uf": True, "reach": ["hashed"], "bound": "arbitrary 32-byte action IDs, identifiers of 1..2 bytes"},
+            {"harness": "H_C12_unseeded_flags", "uf": True, "reach": ["hashed"], "bound": "configurations differing in exactly one of -literals, -tiny, GOGARBLE (same length), garble binary ID"},
             {"harness": "H_C12_fields", "uf": True, "reach": ["hashed"], "bound": "a 2-field struct built with go/types; 2 configurations"},
             {"harness": "H_C12_runtime_keys", "uf": True, "reach": ["hashed"], "bound": "arbitrary runtime action ID / 8-byte seeds"},
             {"harness": "H_C12_seedflag", "reach": ["set"], "bound": "seeds of 6..10 symbolic bytes, 0..2 padding characters"},
